@@ -721,12 +721,7 @@ class MGroupBy:
         return self._reduce(lambda vs: fn(MSeries(vs)))
 
     def mean(self):
-        def f(vs):
-            t = 0
-            for v in vs:
-                t = t + v
-            return t / len(vs)
-        return self._reduce(f)
+        return self._reduce(lambda vs: MSeries(vs).mean())
 
     def var(self, ddof=1):
         return self._reduce(lambda vs: MSeries(vs).var(ddof))
